@@ -73,9 +73,60 @@ func IntervalCanonicity(p *core.Program, r *core.Report, rule string) {
 			return false
 		}
 		fn := core.Callee(info, c)
-		return fn != nil && fn.Pkg() != nil && strings.HasSuffix(fn.Pkg().Path(), "models/pkg/interval")
+		if fn != nil && fn.Pkg() != nil && strings.HasSuffix(fn.Pkg().Path(), "models/pkg/interval") {
+			return true
+		}
+		// a helper of the module every return of which hands out a library value
+		if hd := p.ByObj[fn]; hd != nil && depth < 3 && fn.Type().(*types.Signature).Results().Len() > 0 && isLib(fn.Type().(*types.Signature).Results().At(0).Type()) {
+			saved := curBody
+			curBody = hd.Decl.Body
+			okAll, nRet := true, 0
+			ast.Inspect(hd.Decl.Body, func(m ast.Node) bool {
+				if _, isLit := m.(*ast.FuncLit); isLit {
+					return false
+				}
+				if ret, isRet := m.(*ast.ReturnStmt); isRet && len(ret.Results) >= 1 {
+					nRet++
+					if !fromLibD(hd.Pkg.TypesInfo, ret.Results[0], depth+1) {
+						okAll = false
+					}
+				}
+				return true
+			})
+			curBody = saved
+			return okAll && nRet > 0
+		}
+		return false
 	}
 	fromLib := func(info *types.Info, e ast.Expr) bool { return fromLibD(info, e, 0) }
+	// a constructor that receives the port numbers as a parameter: every call site must hand it a library value
+	paramFromLib := func(fd *core.FuncDecl, e ast.Expr) bool {
+		id, ok := ast.Unparen(e).(*ast.Ident)
+		if !ok {
+			return false
+		}
+		sig := fd.Obj.Type().(*types.Signature)
+		for i := 0; i < sig.Params().Len(); i++ {
+			if fd.Pkg.TypesInfo.ObjectOf(id) != types.Object(sig.Params().At(i)) || fd.Obj.Exported() {
+				continue
+			}
+			sites := CallsTo(p, fd.Obj)
+			if len(sites) == 0 {
+				return false
+			}
+			for _, cs := range sites {
+				saved := curBody
+				curBody = cs.In.Decl.Body
+				good := i < len(cs.Call.Args) && fromLibD(cs.In.Pkg.TypesInfo, cs.Call.Args[i], 1)
+				curBody = saved
+				if !good {
+					return false
+				}
+			}
+			return true
+		}
+		return false
+	}
 	n := 0
 	for _, fd := range p.Funcs {
 		info := fd.Pkg.TypesInfo
@@ -86,7 +137,7 @@ func IntervalCanonicity(p *core.Program, r *core.Report, rule string) {
 				for i, l := range x.Lhs {
 					if core.FieldOf(info, l) == fld && i < len(x.Rhs) {
 						n++
-						r.Check(fromLib(info, x.Rhs[i]), rule, fd.Key()+": PortSet.Ports assigned from an interval-library call", p.Pos(x.Pos()), core.ExprStr(x.Rhs[i]), "PortSet.Ports is assigned a value that does not come directly from a constructor or operation of the interval library")
+						r.Check(fromLib(info, x.Rhs[i]) || paramFromLib(fd, x.Rhs[i]), rule, fd.Key()+": PortSet.Ports assigned from an interval-library call", p.Pos(x.Pos()), core.ExprStr(x.Rhs[i]), "PortSet.Ports is assigned a value that does not come directly from a constructor or operation of the interval library")
 					}
 				}
 			case *ast.CompositeLit:
@@ -95,7 +146,7 @@ func IntervalCanonicity(p *core.Program, r *core.Report, rule string) {
 						if kv, ok := el.(*ast.KeyValueExpr); ok {
 							if id, ok := kv.Key.(*ast.Ident); ok && info.ObjectOf(id) == fld {
 								n++
-								r.Check(fromLib(info, kv.Value), rule, fd.Key()+": PortSet literal initialises Ports from an interval-library call", p.Pos(kv.Pos()), core.ExprStr(kv.Value), "a PortSet literal initialises Ports with a value not produced by the interval library")
+								r.Check(fromLib(info, kv.Value) || paramFromLib(fd, kv.Value), rule, fd.Key()+": PortSet literal initialises Ports from an interval-library call", p.Pos(kv.Pos()), core.ExprStr(kv.Value), "a PortSet literal initialises Ports with a value not produced by the interval library")
 							}
 						}
 					}
